@@ -21,6 +21,10 @@ def check(run, views, tier):
     for cfg, crates in views.items():
         run.cfg = cfg
         F = crates["ipp"]
+        # the encoder reads the container: what `add` stored, in the order it stored it (C19's clauses)
+        from ..engine import include as _inc
+        from . import c19 as _c19
+        _inc(run, _c19, {cfg: {"ipp": F}}, tier)
         n = cr.r_tagmap(run, F, T, check_registry=True)
         run.floor("R-TAGMAP", n, 19, "fixed-tag kinds")
         ne, nd = cr.r_layout(run, F, T, external=True, casts=False)
